@@ -5,6 +5,7 @@
 //   been read (trailing newline: the extraction fails and leaves xf, yf untouched) shows as an extra count.
 // exit 0 agree, 1 mismatch, 3 usage
 #include <cstdio>
+#include <unistd.h>
 #include <cstdlib>
 #include <cmath>
 #include <vector>
@@ -19,7 +20,7 @@ int main(int argc, char** argv) {
     if (argc != 6 || std::string(argv[1]) != "txt") return 3;
     int N = atoi(argv[2]); bool nl = atoi(argv[3]); int np = atoi(argv[4]); bool outlier = atoi(argv[5]);
     const float qmax = 6, pmax = 6;
-    std::string fname = "/tmp/vf_psf_replay.txt";
+    std::string fname = "/tmp/vf_psf_replay_" + std::to_string((long)getpid()) + ".txt";
     std::vector<std::pair<float, float>> parts;
     for (int i = 0; i < np; i++) parts.push_back({-2.5f + 5.0f * i / std::max(1, np - 1), 1.5f - 3.0f * i / std::max(1, np - 1)});
     if (outlier) { parts.push_back({-7.5f, 0.25f}); parts.push_back({0.5f, -30.0f}); parts.push_back({1.25f, 2.25f}); }
@@ -37,6 +38,7 @@ int main(int argc, char** argv) {
         if (x >= 0 && x < N && y >= 0 && y < N) want[x * N + y] += 1.0 / newlines; }
     PhaseSpace::_firstinit = true;
     auto ps = makePSFromTXT(fname, N, -qmax, qmax, -pmax, pmax, nullptr, 1e-9, 1e-3, 1e-3, 1e3);
+    remove(fname.c_str());
     const float* d = ps->getData();
     // both are compared after normalising to unit sum (the real function normalises by the Simpson integral)
     double sw = 0, sg = 0; for (int i = 0; i < N * N; i++) { sw += want[i]; sg += d[i]; }
